@@ -494,3 +494,7 @@ func OneIn(t *rapid.T, n int, label string) bool {
 	}
 	return rapid.IntRange(0, n/2).Draw(t, label) == n/4+1
 }
+
+// OneIn2 is a deterministic coin derived from n (for choices that need not
+// be random but should vary between cases).
+func OneIn2(n int) bool { return n%2 == 0 }
